@@ -45,6 +45,8 @@ type World struct {
 	// TrueName gives the declared package name of a path: the name ImportName may (truthfully)
 	// state, and the name the fabricated importer declares the package under.
 	TrueName func(path string) string
+	// MidProblems: failures of intermediate renders (MidRender).
+	MidProblems []string
 }
 
 // StdNames are the real names of the standard-library paths used in alphabets.
@@ -84,6 +86,11 @@ func New(ctor, local string, trueName func(string) string) *World {
 	case "NewFilePathName":
 		w.F = jen.NewFilePathName(local, "pkgmain")
 	default:
+		// "NewFilePathName:<package name>"
+		if name, ok := strings.CutPrefix(ctor, "NewFilePathName:"); ok {
+			w.F = jen.NewFilePathName(local, name)
+			break
+		}
 		panic("imp: unknown ctor " + ctor)
 	}
 	w.Log = append(w.Log, fmt.Sprintf("%s(%q)", ctor, local))
@@ -206,6 +213,15 @@ func (w *World) AnonImport(path string) {
 func (w *World) Prefix(p string) {
 	w.F.PackagePrefix = p
 	w.Log = append(w.Log, fmt.Sprintf("PackagePrefix=%q", p))
+}
+
+// MidRender renders the File in the middle of a history (output discarded; a failure is kept
+// in MidProblems and reported by the caller's oracle).
+func (w *World) MidRender() {
+	if o := w.Render(); !o.OK() {
+		w.MidProblems = append(w.MidProblems, "intermediate render failed: "+o.String())
+	}
+	w.Log = append(w.Log, "File.Render")
 }
 
 func (w *World) CgoPreamble(s string) {
